@@ -34,7 +34,7 @@ Lemma surv_app a b : surv (a ++ b) = surv a ++ surv b.
 Proof. unfold surv. rewrite filter_app, map_app. reflexivity. Qed.
 
 Lemma dead_bytes_app a b : dead_bytes (a ++ b) = dead_bytes a + dead_bytes b.
-Proof. induction a as [|x a IH]; [reflexivity|]. cbn [app dead_bytes fold_right] in *. unfold dead_bytes in IH. rewrite IH. lia. Qed.
+Proof. induction a as [|x a IH]; [reflexivity|]. unfold dead_bytes in *. cbn [app fold_right]. rewrite IH. lia. Qed.
 
 (** ---- what the adjacency test of the C code means on a chain ---- *)
 Lemma adjacent_some : forall rest p size todo' (c : Prop) e r rest',
@@ -92,7 +92,7 @@ Proof.
 Qed.
 
 (** the result of closing [q] and continuing with a fresh current node [s] starting at [p] *)
-Lemma post_consq : forall q s X mf0 mf sf0 sf e res,
+Lemma post_consq : forall q s X mf0 mf sf e res,
   sentinel q \/ chunk q -> run_ok (nrun q) -> unmarked (nrun q) ->
   chunk s -> nrun s = [] -> noff s = nend q + run_bytes (nrun q) ->
   (nrun q <> [] \/ noff q = 0) ->
@@ -107,7 +107,7 @@ Lemma post_consq : forall q s X mf0 mf sf0 sf e res,
     nodes_objs (q' :: l') = pos_objs (nend q) (rev (nrun q)) ++ surv X /\
     sf' = sf + dead_bytes X /\ mf0 <= mf'.
 Proof.
-  intros q s X mf0 mf sf0 sf e res Hq Hrq Huq Hs Hrs Hos Hc Hmf
+  intros q s X mf0 mf sf e res Hq Hrq Huq Hs Hrs Hos Hc Hmf
          (s' & l2 & mf' & sf' & -> & Hos' & _ & Hcs' & Hrs' & Hch & Hum & Hobjs & Hsf & Hmf').
   exists q, (s' :: l2), mf', sf'. cbn [consq].
   split; [reflexivity|]. split; [reflexivity|]. split; [auto|]. split; [auto|]. split; [assumption|].
@@ -141,26 +141,26 @@ Proof.
     + cbn [tchain] in Hch. destruct Hch as (Ho & Hcr & Hc & Hrr & Hrest).
       unfold run_bytes in Ho at 1. cbn [fold_right] in Ho.
       assert (E : (noff r =? p) = true) by (apply Z.eqb_eq; lia). rewrite E.
-      cbn [pos_objs app]. rewrite nodes_objs_cons.
-      eapply post_consq with (s := Node (noff r) (nsize r) []) (mf := mf); try assumption.
-      * destruct Hcr as (? & ? & ?). unfold chunk. cbn [noff nsize]. auto.
-      * reflexivity.
-      * cbn [noff]. lia.
-      * destruct Hc as [H|H]; [congruence|assumption].
-      * lia.
-      * assert (Hpe : p + nsize r = nend r) by (rewrite nend_chunk by assumption; lia).
-        rewrite <- Hpe.
-        apply IH.
-        -- cbn [nodes_fuel length] in Hfuel. rewrite rev_length. cbn [length]. lia.
-        -- right. destruct Hcr as (? & ? & ?). unfold chunk. cbn [noff nsize]. auto.
-        -- unfold nend. cbn [noff nsize nrun]. pose proof (chunk_not_sentinel r Hcr) as Hn.
-           apply Z.eqb_neq in Hn. rewrite Hn. unfold run_bytes. cbn. lia.
-        -- constructor.
-        -- constructor.
-        -- apply run_ok_rev. assumption.
-        -- rewrite run_bytes_rev. replace (p + nsize r + run_bytes (nrun r)) with (noff r + nsize r + run_bytes (nrun r)) by lia.
-           eapply tchain_weaken; [|exact Hrest]. intros Hn. left. intros Hr. apply Hn.
-           apply (f_equal (@rev obj)) in Hr. rewrite rev_involutive in Hr. exact Hr.
+      assert (Hpe : p + nsize r = nend r) by (rewrite nend_chunk by assumption; lia).
+      assert (Hcs : chunk (Node (noff r) (nsize r) []))
+        by (destruct Hcr as (? & ? & ?); unfold chunk; cbn [noff nsize]; auto).
+      assert (Hpost : sweep_post (Node (noff r) (nsize r) []) (pos_objs (p + nsize r) (rev (nrun r)) ++ nodes_objs rest') mf sf e
+                                 (sweep_loop fuel (Node (noff r) (nsize r) []) (rev (nrun r)) rest' (p + nsize r) mf sf)).
+      { apply IH.
+        - cbn [nodes_fuel length] in Hfuel. rewrite rev_length. lia.
+        - right. exact Hcs.
+        - unfold nend. cbn [noff nsize nrun]. pose proof (chunk_not_sentinel r Hcr) as Hn.
+          apply Z.eqb_neq in Hn. rewrite Hn. unfold run_bytes. cbn [fold_right]. lia.
+        - constructor.
+        - constructor.
+        - apply run_ok_rev. assumption.
+        - rewrite run_bytes_rev.
+          replace (p + nsize r + run_bytes (nrun r)) with (noff r + nsize r + run_bytes (nrun r)) by lia.
+          eapply tchain_weaken; [|exact Hrest]. intros Hn. left. intros Hr. apply Hn.
+          apply (f_equal (@rev obj)) in Hr. rewrite rev_involutive in Hr. exact Hr. }
+      cbn [pos_objs app]. rewrite nodes_objs_cons. rewrite <- Hpe.
+      apply (post_consq q _ _ mf mf sf e _ Hq Hrq Huq Hcs eq_refl ltac:(cbn [noff]; lia)
+                        ltac:(destruct Hc as [H|H]; [congruence|assumption]) ltac:(lia) Hpost).
   - (* an object at p *)
     inversion Htodo as [|? ? [Hszpos Hszdiv] Htodo']; subst. cbn [fst] in *.
     rewrite run_bytes_cons in Hch. cbn [fst] in Hch.
@@ -233,8 +233,8 @@ Proof.
               rewrite (nend_chunk r) by (unfold chunk; auto).
               replace (nend q + run_bytes [] + size + nsize r) with (noff r + nsize r); [reflexivity|].
               rewrite Hnil in Hor. lia.
-           ++ rewrite Hsf. cbn [app]. rewrite nodes_objs_cons.
-              cbn [dead_bytes fold_right snd fst]. unfold dead_bytes.
+           ++ rewrite Hsf. cbn [pos_objs app]. rewrite nodes_objs_cons.
+              unfold dead_bytes. cbn [fold_right snd fst].
               rewrite (nend_chunk r) by (unfold chunk; auto).
               replace (nend q + run_bytes (nrun q) + size + nsize r) with (noff r + nsize r) by lia. lia.
         -- assert (Hpost : sweep_post (Node (noff q) (nsize q + size) (nrun q))
@@ -260,7 +260,7 @@ Proof.
            split; [|split; [|lia]].
            ++ rewrite Hobjs. cbn [nrun]. rewrite Hnil. cbn [rev pos_objs app].
               unfold surv at 2. cbn [filter snd map]. reflexivity.
-           ++ rewrite Hsf. cbn [dead_bytes fold_right snd fst]. unfold dead_bytes. lia.
+           ++ rewrite Hsf. unfold dead_bytes. cbn [fold_right snd fst]. lia.
       * (* a new free-list node starts at p *)
         assert (Hcoal : nrun q <> [] \/ noff q = 0).
         { destruct (Z.eq_dec (noff q) 0) as [|Hn0]; [right; assumption|left].
@@ -295,9 +295,9 @@ Proof.
                  with (noff r + nsize r + run_bytes (nrun r)) by lia.
                eapply tchain_weaken; [|exact Hrest]. intros Hn. left. intros Hr. apply Hn.
                apply (f_equal (@rev obj)) in Hr. rewrite rev_involutive in Hr. exact Hr. }
-           destruct (post_consq q _ _ mf _ sf _ e _ Hq Hrq Huq
-                       ltac:(unfold chunk; cbn [noff nsize]; split; [lia|split; [lia|apply Z.divide_add_r; assumption]])
-                       eq_refl eq_refl Hcoal ltac:(lia) Hpost)
+           assert (Hcs : chunk (Node (nend q + run_bytes (nrun q)) (size + nsize r) []))
+             by (unfold chunk; cbn [noff nsize]; split; [lia|split; [lia|apply Z.divide_add_r; assumption]]).
+           destruct (post_consq q _ _ mf _ _ e _ Hq Hrq Huq Hcs eq_refl eq_refl Hcoal (Z.le_max_l _ _) Hpost)
              as (q' & l' & mf' & sf' & Hres & Ho' & Hs' & Hc' & Hr' & Hch' & Hum' & Hobjs & Hsf & Hmf).
            exists q', l', mf', sf'. split; [exact Hres|]. split; [exact Ho'|]. split; [exact Hs'|]. split; [exact Hc'|].
            split; [assumption|]. split; [assumption|]. split; [assumption|].
@@ -306,7 +306,7 @@ Proof.
               unfold surv at 2. cbn [filter snd map]. fold (surv (pos_objs (nend r) (rev (nrun r)) ++ nodes_objs rest')).
               rewrite Hpe. reflexivity.
            ++ rewrite Hsf. cbn [pos_objs app]. rewrite nodes_objs_cons.
-              cbn [dead_bytes fold_right snd fst]. unfold dead_bytes. rewrite Hpe. lia.
+              unfold dead_bytes. cbn [fold_right snd fst]. rewrite Hpe. lia.
         -- assert (Hpost : sweep_post (Node (nend q + run_bytes (nrun q)) size [])
                                       (pos_objs (nend q + run_bytes (nrun q) + size) todo' ++ nodes_objs rest)
                                       (Z.max mf size) (sf + size) e
@@ -322,13 +322,13 @@ Proof.
              - constructor.
              - assumption.
              - eapply adjacent_none; eassumption. }
-           destruct (post_consq q _ _ mf _ sf _ e _ Hq Hrq Huq
-                       ltac:(unfold chunk; cbn [noff nsize]; split; [lia|split; [lia|assumption]])
-                       eq_refl eq_refl Hcoal ltac:(lia) Hpost)
+           assert (Hcs : chunk (Node (nend q + run_bytes (nrun q)) size []))
+             by (unfold chunk; cbn [noff nsize]; split; [lia|split; [lia|assumption]]).
+           destruct (post_consq q _ _ mf _ _ e _ Hq Hrq Huq Hcs eq_refl eq_refl Hcoal (Z.le_max_l _ _) Hpost)
              as (q' & l' & mf' & sf' & Hres & Ho' & Hs' & Hc' & Hr' & Hch' & Hum' & Hobjs & Hsf & Hmf).
            exists q', l', mf', sf'. split; [exact Hres|]. split; [exact Ho'|]. split; [exact Hs'|]. split; [exact Hc'|].
            split; [assumption|]. split; [assumption|]. split; [assumption|].
            split; [|split; [|lia]].
            ++ rewrite Hobjs. unfold surv at 2. cbn [filter snd map]. reflexivity.
-           ++ rewrite Hsf. cbn [dead_bytes fold_right snd fst]. unfold dead_bytes. lia.
+           ++ rewrite Hsf. unfold dead_bytes. cbn [fold_right snd fst]. lia.
 Qed.
